@@ -533,8 +533,28 @@ fn exec(ctx: &mut Ctx, s: &mut S, op: &str) {
             let cnt_before = |p: usize, want: bool| (0..p).filter(|&k| raw_bit(&ws, k) == want).count();
             if t[0] == "rank_hinted" {
                 if x < s.oa.len() && hp <= x / 64 && hr == cnt_before(hp * 64, true) {
+                    // also through borrowed views of the same words at an odd and an even word offset
+                    // of a larger buffer (8 mod 16 / 0 mod 16 addresses): the answer must not depend
+                    // on where the storage lies
+                    let wsu: Vec<usize> = s.a.as_ref().to_vec();
+                    let len = s.a.len();
+                    let via = |k: usize| -> Option<usize> {
+                        let mut buf: Vec<usize> = vec![usize::MAX; k];
+                        buf.extend_from_slice(&wsu);
+                        buf.push(usize::MAX / 3);
+                        let view: BitVec<&[usize]> = unsafe { BitVec::from_raw_parts(&buf[k..k + wsu.len()], len) };
+                        catch(|| unsafe { view.rank_hinted(x, hp, hr) })
+                    };
+                    let direct = catch(|| unsafe { s.a.rank_hinted(x, hp, hr) });
+                    let (v1, v2) = (via(1), via(2));
+                    if v1 != direct || v2 != direct {
+                        ctx.check_oracle(
+                            "rank_hinted through slice views at word offsets 1 and 2 agrees with the owned vector",
+                            &format!("owned {:?} offset1 {:?} offset2 {:?}", direct, v1, v2),
+                        );
+                    }
                     (
-                        catch(|| unsafe { s.a.rank_hinted(x, hp, hr) }).map(|r| format!("ok {}", r)),
+                        direct.map(|r| format!("ok {}", r)),
                         format!("ok {}", cnt_before(x, true)),
                     )
                 } else {
